@@ -9,6 +9,8 @@ import (
 	"math/rand"
 	"reflect"
 	"sort"
+	"sync"
+	"time"
 
 	"github.com/yaricom/goNEAT/v4/experiment"
 	"github.com/yaricom/goNEAT/v4/neat"
@@ -197,6 +199,35 @@ func norm(v interface{}) interface{} {
 	return out
 }
 
+// expiringContext is a context that ends the way a context.WithDeadline / WithTimeout context does when its time is up
+// (Done closes, Err() = context.DeadlineExceeded) - at the moment the script says, not by the wall clock.  "A cancelled
+// context" of the statement is a context that is done, whatever ended it.
+type expiringContext struct {
+	mu   sync.Mutex
+	done chan struct{}
+	err  error
+}
+
+func newExpiringContext() (*expiringContext, context.CancelFunc) {
+	c := &expiringContext{done: make(chan struct{})}
+	return c, func() {
+		c.mu.Lock()
+		defer c.mu.Unlock()
+		if c.err == nil {
+			c.err = context.DeadlineExceeded
+			close(c.done)
+		}
+	}
+}
+func (c *expiringContext) Deadline() (time.Time, bool)       { return time.Now().Add(time.Hour), true }
+func (c *expiringContext) Done() <-chan struct{}             { return c.done }
+func (c *expiringContext) Value(key interface{}) interface{} { return nil }
+func (c *expiringContext) Err() error {
+	c.mu.Lock()
+	defer c.mu.Unlock()
+	return c.err
+}
+
 func init() { commands["replay-experiment"] = replayExperiment }
 
 func okScript(runs, gens int) [][]string {
@@ -217,7 +248,7 @@ func (c *expCase) compare(ev *scriptedEvaluator, obs *recordingObserver, exp *ex
 	case runErr == nil:
 	case errors.Is(runErr, errScripted):
 		gotErr = "fail"
-	case errors.Is(runErr, context.Canceled):
+	case errors.Is(runErr, context.Canceled), errors.Is(runErr, context.DeadlineExceeded):
 		gotErr = "cancelled"
 	default:
 		gotErr = "other: " + runErr.Error()
@@ -344,6 +375,10 @@ func replayExperiment(args []string) int {
 			for pass := 1; pass <= 2; pass++ {
 				rand.Seed(envSeed() + int64(rep.Cases) + int64(pass-1)*7919)
 				ctx, cancel := context.WithCancel(context.Background())
+				if (rep.Cases+pass)%2 == 0 {
+					// every other run: the context ends like one whose deadline passes (at the scripted moment)
+					ctx, cancel = newExpiringContext()
+				}
 				ev := &scriptedEvaluator{c: c, cancel: cancel, pops: map[*genetics.Population]*popTrack{}, ref: ref}
 				obs := &recordingObserver{ocancel: c.OCancel, cancel: cancel}
 				var runErr error
